@@ -2,6 +2,8 @@ CONSTANTS
   BlockSize = 32768
   HeaderLen = 7
   BlocksPerFile = 4
+  RecHdr = 11
+  BatchHdr = 12
 SPECIFICATION TraceSpec
 POSTCONDITION TraceAccepted
 CHECK_DEADLOCK FALSE
